@@ -88,6 +88,11 @@ theorem established_kept {c c' : Cap} {a : Act} {id : Nat} (hs : step c a = some
   case acceptDone k =>
     split at hs <;> cases hs
     exact absurd (List.mem_cons_of_mem _ ho) hn
+  case acceptFail k =>
+    split at hs
+    · split at hs <;> cases hs
+      simp only [semRelease, notify_opened] at hn; exact absurd ho hn
+    · cases hs
   case connClose k =>
     split at hs
     · split at hs <;> cases hs
@@ -273,11 +278,6 @@ theorem mqtt_accept_below_cap {m m' : Mq} {o : MOut} {conn cid : Nat} (hbelow : 
 reachable state, i.e. for any sequence of `SetMaxCount` calls, accepts and closes with any number of
 adjustment goroutines not yet run (`pending`) or parked in the weighted semaphore's queue. -/
 
-/-- total of the shrink amounts among the spawned, not yet executed adjustments -/
-def pendingShrink : List (Nat × Int) → Int
-  | [] => 0
-  | p :: r => (if p.2 < 0 then -p.2 else 0) + pendingShrink r
-
 theorem pendSum_ge_neg_shrink (l : List (Nat × Int)) : -pendingShrink l ≤ pendSum l := by
   induction l with
   | nil => simp [pendingShrink, pendSum]
@@ -366,6 +366,9 @@ theorem parked_shrink_means_over_cap {n₀ : Int} (h0 : 0 ≤ n₀) {c : Cap} (r
     c.realCap < ((c.inAccept.length + c.opened.length : Nat) : Int) :=
   parked_means_over_cap (reach_inv h0 r) (reach_adjPos r) (reach_headBlocked r) hp hex
 
+theorem setMaxCount_le_max (realCap n : Int) : (setMaxCount realCap n).1 ≤ M := by
+  simp only [setMaxCount]; split <;> omega
+
 /-- **realCap_le_max.** `realCapacity ≤ maxCapacity` in every reachable state, and whatever is asked for,
 `SetMaxCount` stores at most `maxCapacity` (translated clamp), so the weight of a later shrink never
 exceeds the size of the weighted semaphore. -/
@@ -386,11 +389,15 @@ theorem realCap_le_max {n₀ : Int} (hM : n₀ ≤ M) {c : Cap} (r : Reach n₀ 
     cases a <;> simp only [step] at hs
     case acquire k => split at hs <;> cases hs; rw [acq_rc]; exact ih
     case acceptDone k => split at hs <;> cases hs; exact ih
+    case acceptFail k =>
+      split at hs
+      · split at hs <;> cases hs; simp only [semRelease, notify_rc]; exact ih
+      · cases hs
     case connClose k =>
       split at hs
       · split at hs <;> cases hs; simp only [semRelease, notify_rc]; exact ih
       · split at hs <;> cases hs; exact ih
-    case setMax n => split at hs <;> cases hs; rename_i hg; exact hg.2
+    case setMax n => split at hs <;> cases hs; exact setMaxCount_le_max c1.realCap n
     case adjust k =>
       cases ht : takeAdj k c1.pending with
       | none => simp [ht] at hs
@@ -402,9 +409,6 @@ theorem realCap_le_max {n₀ : Int} (hM : n₀ ≤ M) {c : Cap} (r : Reach n₀ 
         · split at hs <;> cases hs
           · rw [acq_rc]; exact ih
           · exact ih
-
-theorem setMaxCount_le_max (realCap n : Int) : (setMaxCount realCap n).1 ≤ M := by
-  simp only [setMaxCount]; split <;> omega
 
 /-- Non-vacuity / the scenario of seeded/C17-m4: cap 2 with three connections… `SetMaxCount(25000000)` is
 `SetMaxCount(M)`; the later shrink to 2 acquires `M − 2 ≤ size`, parks while 3 connections are open
@@ -434,6 +438,121 @@ example :
     (ok.effCap = 4 ∧ ok.realCap = 2 ∧ pendSum ok.pending = 0 ∧ adjSum ok.waiters = 2 ∧ quiet ok = false) ∧
     (run ok [.connClose 0, .connClose 1]).effCap = 2 ∧
     (bad.effCap = 4 ∧ bad.realCap = 2 ∧ quiet bad = true) := by decide
+
+/-! ### Round 2 (AUDIT item 15): `quiet` persists, guards enabled, failing inner accept, spec ↔ theorems -/
+
+/-- **quiet_stable.** A step that is not a `SetMaxCount` keeps "every change applied" true and the cap
+unchanged. -/
+theorem quiet_stable {c c' : Cap} {a : Act} (hq : quiet c = true) (hs : step c a = some c')
+    (hn : ∀ n, a ≠ Act.setMax n) : quiet c' = true ∧ c'.realCap = c.realCap :=
+  ConnCap.quiet_stable hq hs hn
+
+theorem reach_run {n₀ : Int} {c : Cap} (r : Reach n₀ c) (acts : List Act) : Reach n₀ (run c acts) := by
+  induction acts generalizing c with
+  | nil => exact r
+  | cons a rest ih =>
+    simp only [run]
+    cases hs : step c a with
+    | none => exact ih r
+    | some c' => exact ih (Reach.step a r hs)
+
+/-- **cap_holds_until_next_setmax** (the statement's "while its cap is unchanged, at no instant …"): from a
+state in which every change has been applied, after ANY further sequence of accepts, failed accepts, closes
+(no `SetMaxCount`) the state is still quiet, the cap is the same and the open connections (even counting the
+acceptor's unit) do not exceed it. Every intermediate state is such a `run c acts` (of a prefix). -/
+theorem cap_holds_until_next_setmax {n₀ : Int} (h0 : 0 ≤ n₀) {c : Cap} (r : Reach n₀ c) (hq : quiet c = true)
+    (acts : List Act) (hno : ∀ a ∈ acts, ∀ n, a ≠ Act.setMax n) :
+    quiet (run c acts) = true ∧ (run c acts).realCap = c.realCap ∧
+    (((run c acts).inAccept.length + (run c acts).opened.length : Nat) : Int) ≤ c.realCap := by
+  have key : quiet (run c acts) = true ∧ (run c acts).realCap = c.realCap := by
+    induction acts generalizing c with
+    | nil => exact ⟨hq, rfl⟩
+    | cons a rest ih =>
+      simp only [run]
+      cases hs : step c a with
+      | none => exact ih r hq (fun b hb => hno b (List.mem_cons_of_mem _ hb))
+      | some c' =>
+        obtain ⟨hq', hr'⟩ := ConnCap.quiet_stable hq hs (hno a (List.mem_cons_self ..))
+        have := ih (Reach.step a r hs) hq' (fun b hb => hno b (List.mem_cons_of_mem _ hb))
+        exact ⟨this.1, this.2.trans hr'⟩
+  refine ⟨key.1, key.2, ?_⟩
+  have := cap_holds h0 (reach_run r acts) key.1
+  rw [key.2] at this; exact this
+
+/-- **spec_accepts_model.** The executable snapshot specification the judges evaluate on the implementation's
+observations (`Spec.obsViolation`: cur ≤ size; nothing parked ⇒ units in use ≤ cap ∧ cur = M − cap + units; a
+parked shrink ⇒ over the cap; nothing parked ∧ somebody waits ⇒ cap fully used) accepts the observation of
+every reachable model state in which all spawned adjustment goroutines have run — so a spec violation
+reported by a judge is a behaviour outside the model the theorems are about. -/
+theorem spec_accepts_model {n₀ : Int} (h0 : 0 ≤ n₀) {c : Cap} (r : Reach n₀ c) (hp : c.pending = []) :
+    obsViolation (obsOf c) = none ∧ obsOK (obsOf c) = true := by
+  have h := obsViolation_none_of_inv (reach_inv h0 r) (reach_adjPos r) (reach_headBlocked r) hp
+  exact ⟨h, by simp [obsOK, h]⟩
+
+/-- … and the listener judges' interval check (`Spec.intervalOK`: the largest open count seen at an accept
+while the cap was unchanged and applied) accepts every model run. -/
+theorem interval_spec_accepts_model {n₀ : Int} (h0 : 0 ≤ n₀) {c : Cap} (r : Reach n₀ c) (hq : quiet c = true)
+    (acts : List Act) (hno : ∀ a ∈ acts, ∀ n, a ≠ Act.setMax n) :
+    intervalOK (run c acts).opened.length c.realCap = true := by
+  have := (cap_holds_until_next_setmax h0 r hq acts hno).2.2
+  simp only [intervalOK, decide_eq_true_eq]
+  omega
+
+/-- **guards_enabled.** The model's `step` is partial where Go's `Weighted.Release` would panic ("released
+more than held"): a grow with `d > cur`, a `Close` / failed accept with `cur = 0`. While the *budget* — the
+configured capacity plus all outstanding shrinks — fits into the semaphore (`≤ maxCapacity`), these guards
+hold: every spawned adjustment, every `Close` of an open connection, every failed accept and every
+`SetMaxCount(n ≥ 0)` is enabled, i.e. `Reach` then contains every history the Go code can produce. -/
+theorem guards_enabled {n₀ : Int} (h0 : 0 ≤ n₀) {c : Cap} (r : Reach n₀ c) (hb : budget c ≤ M) :
+    (∀ id, (takeAdj id c.pending).isSome → (step c (.adjust id)).isSome) ∧
+    (∀ id, id ∈ c.opened → (step c (.connClose id)).isSome) ∧
+    (∀ id, id ∈ c.inAccept → (step c (.acceptFail id)).isSome) ∧
+    (∀ n, 0 ≤ n → (step c (.setMax n)).isSome) := by
+  obtain ⟨g1, g2, g3⟩ := guards_enabled_of_budget (reach_inv h0 r) hb
+  refine ⟨?_, ?_, ?_, ?_⟩
+  · intro id hsome
+    cases ht : takeAdj id c.pending with
+    | none => rw [ht] at hsome; cases hsome
+    | some q =>
+      obtain ⟨d, rest⟩ := q
+      simp only [step, ht]
+      by_cases hd : 0 < d
+      · have := g1 id d rest ht hd
+        simp [hd, this]
+      · by_cases hd2 : d < 0 <;> simp [hd, hd2]
+  · intro id hm; have := g2 id hm; simp [step, hm, this]
+  · intro id hm; have := g3 id hm; simp [step, hm, this]
+  · intro n hn; simp [step, hn]
+
+/-- "below M/2": with the cap and the outstanding shrinks each at most `M / 2` (e.g. all configured caps
+≤ 10 000 000 and at most one shrink not yet applied) the budget fits. -/
+theorem budget_below_half {c : Cap} (hcap : c.realCap ≤ M / 2)
+    (hout : pendingShrink c.pending + adjSum c.waiters ≤ M / 2) : budget c ≤ M := by
+  have : M / 2 = 10000000 := by decide
+  have hm : M = 20000000 := rfl
+  unfold budget; omega
+
+/-- Non-vacuity, and the witness for the open finding `panic:semaphore-released-more-than-held`: capacity
+25 000 000 (clamped to `M`), three connections, `SetMaxCount(2)` parks, `SetMaxCount(10)`: the budget is
+`10 + (M − 2) > M`, the grow `Release(8)` is **not enabled** (`cur = 3`) — this is where the Go code panics.
+With capacity 100 instead of 25 000 000 the same history is fine. -/
+example :
+    let h (big : Int) := run (newCap 2) [.setMax big, .adjust 0, .acquire 0, .acceptDone 0, .acquire 1, .acceptDone 1,
+                                      .acquire 2, .acceptDone 2, .setMax 2, .adjust 1, .setMax 10]
+    (budget (h 25000000) > M ∧ (h 25000000).cur = 3 ∧ step (h 25000000) (.adjust 2) = none) ∧
+    (budget (h 100) ≤ M ∧ (step (h 100) (.adjust 2)).isSome = true) := by decide
+
+/-- `Accept` with a failing inner accept (`Act.acceptFail`, `acceptBody true false true = (false, 0)`): the unit
+goes back and a waiting `Accept` is served. -/
+example :
+    let c := run (newCap 1) [.acquire 0, .acquire 1]
+    c.inAccept = [0] ∧ c.waiters.map (·.id) = [1] ∧
+    (step c (.acceptFail 0)).map (fun x => (x.inAccept, x.waiters.length, x.cur)) = some ([1], 0, M) := by decide
+
+example : obsViolation (obsOf (run (newCap 2) [.acquire 0, .acceptDone 0, .acquire 1, .acceptDone 1, .acquire 2,
+    .setMax 1, .adjust 0, .connClose 0])) = none ∧
+    obsViolation { cur := M - 1, unitsHeld := 1, parked := 1, capNow := 2, unitWaiting := false, settled := true }
+      = some "setmax:parked-shrink-not-applied" := by decide
 
 /-! ### Tie by translation (regenerated on every run, `notes/IR.md`) -/
 
@@ -470,11 +589,11 @@ difference `n - old`, `adjust` = the recorded goroutine actions `adjBody d 0` ap
 semaphore, `connClose` releases `(connCloseBody once).2` units, and an `Accept` call keeps one unit
 iff it returns a connection (the `inAccept` unit becomes the `opened` unit). -/
 theorem step_built_from_translated_code :
-    (∀ (c : Cap) (n : Int), 0 ≤ n → n ≤ M →
+    (∀ (c : Cap) (n : Int), 0 ≤ n →
       step c (.setMax n) = some { c with realCap := (setMaxCount c.realCap n).1,
-                                         pending := c.pending ++ [(c.nextAdj, n - c.realCap)],
+                                         pending := c.pending ++ [(c.nextAdj, (setMaxCount c.realCap n).1 - c.realCap)],
                                          nextAdj := c.nextAdj + 1 } ∧
-      (setMaxCount c.realCap n).2 = adjBody (n - c.realCap) 0) ∧
+      (setMaxCount c.realCap n).2 = adjBody ((setMaxCount c.realCap n).1 - c.realCap) 0) ∧
     (∀ (c : Cap) (id : Nat), step c (.adjust id) =
       match takeAdj id c.pending with
       | none => none
